@@ -12,7 +12,7 @@ import (
 func init() {
 	register(&propInfo{
 		id: "C04", fn: checkC04, multiConfig: true,
-		explanation: "The session model's transition guards are per-request facts, so the history quantifier is discharged handler by handler: (r1) every fid field of a request that names an existing fid goes through LookupFID whose miss branch returns EBADF before anything with an effect (no backend call, InsertFID or DeleteFID may precede that exit), every backend receiver derives from such a lookup, and destination fids are only given to InsertFID; (r2) every exit of tclunk.handle, and every exit of tremove.handle after its lookup, has passed DeleteFID; (r3) every InsertFID is reached only when the operation that produced the new reference succeeded, all exits after it are success replies, InsertFID itself releases a replaced binding, tlcreate rebinds its own fid to an opened literal; (r4) the guard table of the property (opened / mode / type checks with their errnos, xattr sub-protocol switch, CanOpen's exact set, Tauth ENOSYS, auth fid EINVAL) is a subset of the guards that dominate each backend call, with the prescribed errno on the guard's exit; (r5) opened/openFlags are written only on the success side of Open and in the create literal. (r6) handlers act on the request that was sent: decoders overwrite every field and reset every list of recycled message objects (the rule of C18.r1).",
+		explanation: "The session model's transition guards are per-request facts, so the history quantifier is discharged handler by handler: (r1) every fid field of a request that names an existing fid goes through LookupFID whose miss branch returns EBADF before anything with an effect (no backend call, InsertFID or DeleteFID may precede that exit), every backend receiver derives from such a lookup, and destination fids are only given to InsertFID; (r2) every exit of tclunk.handle, and every exit of tremove.handle after its lookup, has passed DeleteFID; (r3) every InsertFID is reached only when the operation that produced the new reference succeeded, all exits after it are success replies, InsertFID itself releases a replaced binding, tlcreate rebinds its own fid to an opened literal; (r4) the guard table of the property (opened / mode / type checks with their errnos, xattr sub-protocol switch, CanOpen's exact set, Tauth ENOSYS, auth fid EINVAL) is a subset of the guards that dominate each backend call, with the prescribed errno on the guard's exit; (r5) opened/openFlags are written only on the success side of Open and in the create literal. (r6) handlers act on the request that was sent: decoders overwrite every field and reset every list of recycled message objects (the rule of C18.r1). (r7) Txattrcreate arms a fid by replacing its pending xattr state as a whole (or field by field with the accumulation buffer reset): the offset and size checks of the following Twrites and of the committing Tclunk start from an empty buffer.",
 		assumptions: []string{"guards are recognised as path facts over resolved expressions; a guard rewritten in an unrecognised but equivalent form is reported (fail-closed)", "the fid table is a Go map under fidMu (its locking is C16's business)"},
 	})
 }
@@ -365,6 +365,114 @@ func checkC04(r *Run) {
 	// a zero-name Twalkgetattr that keeps an earlier request's names walks instead of cloning
 	if r.borrowed == nil {
 		r.borrow(checkC18, map[string]string{"r1": "r6"})
+	}
+	c04XattrArm(r, m)
+}
+
+// c04XattrArm (r7): Txattrcreate arms a fid for a new value.  The checks that the following
+// Twrites and the final Tclunk make (offset == bytes so far, total == announced size) start
+// from an empty accumulation buffer, so arming must replace the pending state as a whole, or
+// at least reset its buffer: a fid armed a second time (or armed after a Txattrwalk filled
+// the buffer) would otherwise refuse the first write and never commit.
+func c04XattrArm(r *Run, m *ServerModel) {
+	info := m.Info
+	fi := r.mustFunc("r7", "p9", "txattrcreate.handle")
+	if fi == nil {
+		return
+	}
+	isPending := func(e ast.Expr) bool {
+		f := fieldOf(info, e)
+		return f != nil && f.Name() == "pendingXattr" && strings.HasSuffix(types.TypeString(f.Type(), nil), "p9.pendingXattr")
+	}
+	// the handler and the private helpers it calls (one level)
+	bodies := []*FuncInfo{fi}
+	for _, s := range m.DB.ByFunc[fi] {
+		if s.Call == nil {
+			continue
+		}
+		if tf := r.L.FuncOf(callee(info, s.Call)); tf != nil && tf != fi && tf.Decl.Body != nil && !tf.Obj.Exported() && !pinnedFuncs[tf.Key] && tf.Pkg == fi.Pkg {
+			bodies = append(bodies, tf)
+		}
+	}
+	whole, bufReset, fieldwise := false, false, 0
+	var at token.Pos
+	for _, b := range bodies {
+		ast.Inspect(b.Decl.Body, func(n ast.Node) bool {
+			as, ok := n.(*ast.AssignStmt)
+			if !ok {
+				return true
+			}
+			for i, lhs := range as.Lhs {
+				lhs = unparen(lhs)
+				if st, isStar := lhs.(*ast.StarExpr); isStar {
+					// *px = pendingXattr{...} with px := &ref.pendingXattr
+					if id, isId := unparen(st.X).(*ast.Ident); isId {
+						if d := m.resolver(b).defs[info.Uses[id]]; d != nil {
+							if u, isAddr := unparen(d).(*ast.UnaryExpr); isAddr && u.Op == token.AND && isPending(u.X) {
+								whole, at = true, as.Pos()
+							}
+						}
+					}
+					continue
+				}
+				if isPending(lhs) {
+					whole, at = true, as.Pos()
+					continue
+				}
+				sel, isSel := lhs.(*ast.SelectorExpr)
+				if !isSel {
+					continue
+				}
+				base := unparen(sel.X)
+				viaAlias := false
+				if id, isId := base.(*ast.Ident); isId {
+					if d := m.resolver(b).defs[info.Uses[id]]; d != nil {
+						if u, isAddr := unparen(d).(*ast.UnaryExpr); isAddr && u.Op == token.AND && isPending(u.X) {
+							viaAlias = true
+						}
+					}
+				}
+				if !isPending(base) && !viaAlias {
+					continue
+				}
+				fieldwise++
+				if at == token.NoPos {
+					at = as.Pos()
+				}
+				if sel.Sel.Name == "buf" && i < len(as.Rhs) && len(as.Lhs) == len(as.Rhs) {
+					rhs := unparen(as.Rhs[i])
+					if isNilIdent(info, rhs) {
+						bufReset = true
+					}
+					if sl, isSl := rhs.(*ast.SliceExpr); isSl && sl.High != nil {
+						if v, isC := constInt(info, sl.High); isC && v == 0 {
+							bufReset = true // buf[:0]
+						}
+					}
+					if cl, isCl := rhs.(*ast.CompositeLit); isCl && len(cl.Elts) == 0 {
+						bufReset = true
+					}
+					if c, isCall := rhs.(*ast.CallExpr); isCall && len(c.Args) >= 2 {
+						if id, isId := c.Fun.(*ast.Ident); isId && id.Name == "make" {
+							if v, isC := constInt(info, c.Args[1]); isC && v == 0 {
+								bufReset = true // make([]byte, 0, n)
+							}
+						}
+					}
+				}
+			}
+			return true
+		})
+	}
+	switch {
+	case whole:
+		r.ok("r7", "txattrcreate.handle: arming replaces the pending xattr state", at, "whole-struct store: the accumulation buffer starts empty")
+	case fieldwise > 0 && bufReset:
+		r.ok("r7", "txattrcreate.handle: arming replaces the pending xattr state", at, "field-wise stores, the accumulation buffer among them")
+	case fieldwise > 0:
+		r.fail("r7", "txattrcreate.handle: arming replaces the pending xattr state", at, "the pending xattr state is updated field by field without resetting its accumulation buffer: a fid that is armed while the buffer holds bytes (armed twice, or after Txattrwalk) refuses the first Twrite at offset 0 and its Tclunk never commits the value")
+	default:
+		r.undecided("r7", "txattrcreate.handle: arming replaces the pending xattr state", fi.Decl.Pos(), "no store to the pending xattr state found in the handler: the rule's anchor no longer resolves")
 	}
 }
 
